@@ -32,7 +32,7 @@ PROPS = {
                 thorough=dict(runs=4000, budget_s=1500, min_runs=400),
                 watchdog_s=240, spot=3, jaxcache=True),
     'C07': dict(engine='c07_sim',
-                quick=dict(runs=480, budget_s=240, min_runs=60),
+                quick=dict(runs=384, budget_s=420, min_runs=60),
                 thorough=dict(runs=8000, budget_s=1800, min_runs=600),
                 watchdog_s=600, spot=3, jaxcache=True),
     'C09': dict(engine='matpoint_sim',
@@ -48,7 +48,7 @@ PROPS = {
                 thorough=dict(runs=1600, budget_s=1800, min_runs=200),
                 watchdog_s=400, spot=2, jaxcache=True),
     'C15': dict(engine='fe_app_sim',
-                quick=dict(runs=48, budget_s=240, min_runs=16),
+                quick=dict(runs=48, budget_s=300, min_runs=16),
                 thorough=dict(runs=1200, budget_s=1800, min_runs=150),
                 watchdog_s=900, spot=2, jaxcache=True),
     'C02': dict(engine='fe_app_sim',
